@@ -204,12 +204,12 @@ func (x *c05F[P, F, S]) recExp(d *c05Dealing[P, S], ids []sharing.ID) {
 			return "reject"
 		}
 		if !sec.Value().Equal(ldf.LiftedSecret().Value()) {
-			x.c.Violation(fmt.Sprintf("ReconstructInTheExponent != LiftedSecret %s ids=%s", x.pre(x.M), idsStr(ids)))
+			x.c.Violation(fmt.Sprintf("ReconstructInTheExponent != LiftedSecret %s ids=%s", x.pre(x.M), c05idsStr(ids)))
 		}
 		return pointStr(sec.Value())
 	})
 	x.c.Count("frecexp." + map[bool]string{true: "reject", false: "point"}[res == "reject"])
-	x.c.Emit(fmt.Sprintf("frecexp %s %s %s", x.pre(x.M), pointsStr(d.vv.pts), idsStr(ids)), res)
+	x.c.Emit(fmt.Sprintf("frecexp %s %s %s", x.pre(x.M), pointsStr(d.vv.pts), c05idsStr(ids)), res)
 }
 
 // recVer: ReconstructAndVerify on the given (possibly tampered) shares.
